@@ -76,6 +76,11 @@ func init() {
 					add("startswith:" + tail[:2])
 				}
 			}
+			for _, hn := range []string{"sha256", "md5"} {
+				for _, sc := range []string{"shared-unchanged", "shared-rewritten", "shared-rewritten-keepmtime", "shared-checksum-changed"} {
+					out = append(out, sp("C13", fmt.Sprintf("shared/%s/%s", hn, sc), seed, P("hash", hn, "sum", "exact", "size", "3000", "shared", sc)))
+				}
+			}
 			out = append(out, sp("C13", "enum/nilhash/exact", seed, P("hash", "nil", "sum", "exact", "size", "10")))
 			out = append(out, sp("C13", "enum/nilhash/empty", seed, P("hash", "nil", "sum", "empty", "size", "10")))
 			for _, f := range []string{"missing", "eio:0", "eio:5", "eio:4096", "short:1", "short:7", "empty-file"} {
@@ -269,4 +274,41 @@ func runC13(r *h.Run) {
 	}
 	_ = plugins.Handshake
 	r.DoNoHang("Kill", 120*time.Second, ctx, func() (any, error) { cl.Kill(); return nil, nil })
+	// the same SecureConfig value used for a second client (a host that launches
+	// the same verified binary again)
+	if sc := r.Spec.P("shared", ""); sc != "" && wantSpawn && spawned {
+		sctx := ctx + " second-client=" + sc
+		wantSecond := true
+		switch sc {
+		case "shared-rewritten", "shared-rewritten-keepmtime":
+			// same inode, same length, other contents
+			nd := append([]byte(nil), node.Data...)
+			for i := range nd {
+				nd[i] ^= 0x5a
+			}
+			node.Data = nd
+			if sc == "shared-rewritten" {
+				node.MTime = node.MTime.Add(time.Hour)
+			}
+			wantSecond = false
+		case "shared-checksum-changed":
+			cfg.SecureConfig.Checksum = append([]byte(nil), cfg.SecureConfig.Checksum...)
+			cfg.SecureConfig.Checksum[0] ^= 1
+			wantSecond = false
+		}
+		cfg2 := r.ClientConfig(c)
+		cfg2.Cmd = simexec.Command(c.Path)
+		cfg2.Cmd.SimName = "plugin2"
+		cfg2.SecureConfig = cfg.SecureConfig
+		cl2 := plugin.NewClient(cfg2)
+		o2 := r.DoNoHang("Start(second)", 90*time.Second, sctx, func() (any, error) { return cl2.Start() })
+		spawned2 := w.ProcByName("plugin2") != nil
+		switch {
+		case spawned2 && !wantSecond:
+			r.Violate("ran-unverified-binary", sctx, fmt.Sprintf("second client with the same SecureConfig executed a file whose digest no longer matches (err %v)", o2.Err))
+		case !spawned2 && wantSecond:
+			r.Violate("refused-verified-binary", sctx, fmt.Sprintf("second client with the same SecureConfig and an unchanged, matching file was refused: %v", o2.Err))
+		}
+		r.DoNoHang("Kill(second)", 120*time.Second, sctx, func() (any, error) { cl2.Kill(); return nil, nil })
+	}
 }
